@@ -13,7 +13,10 @@ from pyvc.contracts import (Any, Bool, ByteArray, Bytes, Callback, ConcList, Con
                             TupleOf, at, contract, forall, fresh_int, iff, implies, lemma, model)
 
 PROP = 'C17'
-ENVIRONMENT = []
+ENVIRONMENT = [
+    'SDP: SDP_PDU.from_bytes and the DataElement parser below it are stubs that return a PDU or raise (termination / nesting depth of that parser: C18 contracts/c18_more.py, continuation assembly: C19); request handlers are recording stubs that may raise',
+    'AdvertisingData: only append / from_bytes (what Device runs on every advertising report); the typed accessors (get / ad_data_to_object) run in application context and raise struct.error on short structures',
+]
 
 model('bumble.core:AdvertisingData', fields=dict(ad_structures=ListOf(TupleOf(Int, Bytes))))
 AD = Inst('bumble.core:AdvertisingData')
